@@ -123,7 +123,7 @@ def main(run: Run):
     run.require(*CLAUSES)
     run.assumptions += BASE_ASSUMPTIONS_L2
     run.functions["amaranth_soc.wishbone.sram.WishboneSRAM.elaborate"] = "per-configuration (bounded: geometry/init), all inputs/states/time"
-    run_configs(run, __name__, cfgs)
+    run_configs(run, __name__, cfgs, must_accept=lambda cfg: cfg["size"] >= 2)     # the property quantifies over sizes 2..N
     return run.finish(
         explanation="WishboneSRAM.elaborate contract: ack next-state function, memory next-state function (z3 array; the "
                     "netlist's own memory is the store), read data at the acknowledge, init image. From an arbitrary state, "
